@@ -23,6 +23,25 @@ def main(tier, seed, replay):
     mviol = [c for c in mcases if c.get("viol")]
     ck.oblige(not mviol, "in-memory metastore: racing Stores of one key never replace a stored record (%d controlled schedules)" % len(mcases), json.dumps(mviol[:1])[:3000])
     ck.cov["memory_metastore_store_schedules"] = len(mcases)
+    # a refused creator adopts a stored key by reading it back: the metastore implementations' reads must see every completed Store
+    # (strong consistency), judged against the key-table specification inside Coq
+    if not replay or '"impl"' in open(replay).read()[:3000]:
+        import c13
+        kruns = [["-replay", replay]] if replay else [["-seed", str(seed + 21), "-n", "600" if tier == "quick" else "6000"]]
+        kcases = envcheck.run_harness(ck, "meta", kruns)
+        if kcases is None:
+            return ck.finish()
+        kbad, kerrs, _ = c13.compare("c14m", kcases)
+        for e in kerrs:
+            ck.oblige(False, "correspondence-eval", e)
+        ck.oblige(not kbad and not kerrs, "every metastore implementation answers reads like the key table on %d op sequences (what a refused creator reads back)" % len(kcases), json.dumps([kcases[i] for i in kbad[:1]])[:3000])
+        ck.cov["metastore_read_back_sequences"] = len(kcases)
+        if kbad:
+            ck.violation(ck.replay_file("metastore", {"what": "a completed Store is not visible to a later read of the same metastore implementation: a creator whose insert was refused cannot adopt the stored key",
+                                                      "Case": kcases[kbad[0]]}))
+        if replay:
+            ck.cov.update({"evaluations": len(kcases), "distinct_nontrivial": len(kcases), "rule": "replay"})
+            return ck.finish()
     nt = set(json.dumps([c["state"], c["cfg"], c["procs"], c.get("trace")]) for c in cases if c.get("refused", 0) >= 1)
     ck.cov.update({
         "evaluations": len(cases), "distinct_nontrivial": len(nt),
